@@ -42,14 +42,14 @@ class C38(Check):
             "redo timeout in {default,0,1/8,3/16,1/4,1/2,1} (passed by the documented keyword), started, then driven by a "
             "seeded schedule of stamp advances (multiples of 1/16 s, some skipping several redo intervals) each followed "
             "by process(), optionally finished by the peer at a drawn step; non-trivial = at least one retransmission or "
-            "a timeout occurred; distinct = digest of (settings, transmission times, outcome)")
+            "a timeout occurred; follow-up messages through send / transmit / message at drawn steps; distinct = digest of (settings, transmission times, outcome)")
     components = {"real": ["ioflo.aio.proto.exchanging.Exchange/Exchanger/Exchangent", "ioflo.aid.timing.StoreTimer/Stamper"],
                   "stub": ["stack (records transmit)", "device", "stamp advanced by the simulator"]}
     assumptions = ["redo intervals are counted from the start of the exchange (each elapsed interval re-arms the timer whether or not there "
                    "is anything to retransmit yet), so a reply first sent late is retransmitted at the next interval boundary, never immediately",
                    "process() is called after every advance while the exchange is not finished; 'once each time the redo interval elapses' is "
                    "measured from the previous (re)transmission as observed at process() calls"]
-    required_probes = ["redo-passed", "timeout-zero", "timed-out", "retransmitted", "skip-several-intervals", "finished-by-peer", "late-first-send", "late-retransmitted"]
+    required_probes = ["redo-passed", "timeout-zero", "timed-out", "retransmitted", "skip-several-intervals", "finished-by-peer", "late-first-send", "late-retransmitted", "followup-send", "followup-transmit", "followup-message"]
     quick_runs = 20000
     thorough_runs = 1000000
     shrink_fields = ["advances"]
@@ -70,6 +70,9 @@ class C38(Check):
                 "finish_at": g.choice([None, None, g.randint(0, n)]), "pre": g.choice([0, 1, 7, 40])}
         if cls == "ExchangentLate":     # the correspondent's reply is not ready when the exchange starts: first sent at a later step
             plan["send_at"] = g.randint(0, max(0, n - 1))
+        # follow-up messages sent while the exchange runs, through send() or directly through transmit() / message(): from then on
+        # the follow-up is the latest message and is what gets retransmitted
+        plan["followups"] = sorted([g.randint(0, max(0, n - 1)), g.choice(["send", "transmit", "message"])] for _ in range(g.choice([0, 0, 1, 2]))) if cls != "ExchangentLate" else []
         return plan
 
     def execute(self, plan):
@@ -129,6 +132,7 @@ class C38(Check):
         # model
         late = plan["cls"] == "ExchangentLate"
         m_sent = [] if late else [t0]
+        m_payload = [] if late else [msg]
         m_start = t0
         m_last = t0
         m_failed = False
@@ -159,10 +163,22 @@ class C38(Check):
                     out.probe("skip-several-intervals")
                 if not late or m_sent:
                     m_sent.append(now)
+                    m_payload.append(msg)
                     out.probe("retransmitted")
                     if late:
                         out.probe("late-retransmitted")
                 m_last = now
+            for fi, (at, how) in enumerate(plan.get("followups") or []):
+                if at == i and not m_done:
+                    msg = b"followup%d" % fi
+                    try:
+                        getattr(ex, how)(msg)
+                    except Exception as exn:
+                        out.violate("exception", "%s raised %s" % (how, type(exn).__name__), repr(exn))
+                        break
+                    m_sent.append(now)
+                    m_payload.append(msg)
+                    out.probe("followup-" + how)
             if late and i == plan.get("send_at") and not m_done:
                 try:
                     ex.send(b"reply")            # the reply became ready after this process() call
@@ -170,13 +186,14 @@ class C38(Check):
                     out.violate("exception", "send raised %s" % type(exn).__name__, repr(exn))
                     break
                 m_sent.append(now)
+                m_payload.append(msg)
                 out.probe("late-first-send")
             got = [t for t, p in stack.sent]
             tr.add(i, now, len(got), ex.done, ex.failed)
             if got != m_sent:
                 out.violate("retransmit", "transmissions differ from schedule", "%s at t=%s: transmitted at %r, schedule says %r" % (label, now, got, m_sent))
                 break
-            if any(p != msg for t, p in stack.sent):
+            if [p for t, p in stack.sent] != m_payload:
                 out.violate("payload", "retransmitted something other than the latest message", repr(stack.sent))
                 break
             if (ex.done, ex.failed) != (m_done, m_failed):
